@@ -400,4 +400,20 @@ theorem prepare_spec (cached : Bool) (pages : List (PageSpec A R C)) (info : Opt
           simp
       · exact hf.fresh j (by omega) hjl
 
+/-- what `build` returns, unfolded -/
+theorem build_ok_iff (L : Layout) (cached : Bool) (pages : List (PageSpec A R C)) (info : Option I)
+    (d' : Doc (BV A R C I)) (i : SaveInfo) (h : build L cached pages info = .ok (d', i)) :
+    ∃ d, prepare cached pages info = .ok d ∧ Prepared cached pages info d ∧ save params L d = (d', .ok i) := by
+  obtain ⟨d, hp, hpr⟩ := prepare_spec cached pages info
+  refine ⟨d, hp, hpr, ?_⟩
+  unfold build at h
+  rw [hp] at h
+  simp only at h
+  generalize hs : save params L d = res at h
+  obtain ⟨d2, o⟩ := res
+  cases o <;> simp at h
+  obtain ⟨rfl, rfl⟩ := h
+  rfl
+
+
 end Build
